@@ -94,10 +94,10 @@ func (e *Exec) nodeCheckState(step, hi int, n *nodeRef) *Violation {
 	}
 	e.st.Probes[fmt.Sprintf("state_class_%d", h.Class())]++
 	// raw primitives on the state the library itself produced
-	if k4, cnt, ok := h.Keys4(); ok {
+	if k4, cnt, ok := h.Keys4(); ok && hookRaw {
 		keys := []byte{byte(k4), byte(k4 >> 8), byte(k4 >> 16), byte(k4 >> 24)}
 		for b := 0; b < 256; b++ {
-			r := art.VerifSearchNode4(k4, byte(b))
+			r := rawSearch4(k4, byte(b))
 			eff := r
 			if r >= cnt {
 				eff = -1 // the library's own guard
@@ -107,7 +107,7 @@ func (e *Exec) nodeCheckState(step, hi int, n *nodeRef) *Violation {
 			}
 			// insert position: only for bytes not yet registered (Insert never adds a present byte)
 			if cnt < 4 && scalarSearch(keys, cnt, byte(b)) == -1 {
-				r = art.VerifInsertPosNode4(k4, byte(b))
+				r = rawInsertPos4(k4, byte(b))
 				if w := scalarInsertPos(keys, cnt, byte(b)); effPos(r, cnt) != effPos(w, cnt) {
 					return e.viol("wrong-result", "C10-swar-insertpos4", step, "4-slot insert position: keys=%x occupied=%d byte=%#02x returns %d, scalar scan gives %d", keys, cnt, b, r, w)
 				}
@@ -115,16 +115,16 @@ func (e *Exec) nodeCheckState(step, hi int, n *nodeRef) *Violation {
 		}
 		e.st.Probes["primitive_states_4"]++
 	}
-	if k16, cnt, ok := h.Keys16(); ok {
+	if k16, cnt, ok := h.Keys16(); ok && hookRaw {
 		for b := 0; b < 256; b++ {
-			r := art.VerifSearchNode16(&k16, uint8(cnt), byte(b))
+			r := rawSearch16(&k16, uint8(cnt), byte(b))
 			if w := scalarSearch(k16[:], cnt, byte(b)); r != w {
 				return e.viol("wrong-result", "C10-simd-search16", step, "16-slot search: keys=%x occupied=%d probe=%#02x returns %d, scalar scan over the occupied slots gives %d", k16, cnt, b, r, w)
 			}
 			if scalarSearch(k16[:], cnt, byte(b)) != -1 {
 				continue
 			}
-			r = art.VerifInsertPosNode16(&k16, uint8(cnt), byte(b))
+			r = rawInsertPos16(&k16, uint8(cnt), byte(b))
 			if w := scalarInsertPos(k16[:], cnt, byte(b)); effPos(r, cnt) != effPos(w, cnt) {
 				return e.viol("wrong-result", "C10-simd-insertpos16", step, "16-slot insert position: keys=%x occupied=%d byte=%#02x returns %d, scalar scan gives %d", k16, cnt, b, r, w)
 			}
@@ -167,6 +167,9 @@ func trunc(a []int) []int {
 // the 4-slot insert position legitimately relies on cleared unoccupied lanes
 // and gets zeros there).
 func (e *Exec) sweepPrimitives(step int, seed uint64, rounds int) *Violation {
+	if !hookRaw {
+		return nil
+	}
 	r := NewRNG(seed)
 	boundary := []byte{0x00, 0x01, 0x7E, 0x7F, 0x80, 0x81, 0xFE, 0xFF}
 	for it := 0; it < rounds; it++ {
@@ -207,13 +210,13 @@ func (e *Exec) sweepPrimitives(step int, seed uint64, rounds int) *Violation {
 		}
 		probes = append(probes, occ...)
 		for _, b := range probes {
-			if got, w := art.VerifSearchNode16(&k16, uint8(cnt), b), scalarSearch(k16[:], cnt, b); got != w {
+			if got, w := rawSearch16(&k16, uint8(cnt), b), scalarSearch(k16[:], cnt, b); got != w {
 				return e.viol("wrong-result", "C10-simd-search16", step, "16-slot search (direct): keys=%x occupied=%d probe=%#02x returns %d, scalar scan over the occupied slots gives %d", k16, cnt, b, got, w)
 			}
 			if scalarSearch(k16[:], cnt, b) != -1 {
 				continue // never asked for a registered byte
 			}
-			if got, w := art.VerifInsertPosNode16(&k16, uint8(cnt), b), scalarInsertPos(k16[:], cnt, b); effPos(got, cnt) != effPos(w, cnt) {
+			if got, w := rawInsertPos16(&k16, uint8(cnt), b), scalarInsertPos(k16[:], cnt, b); effPos(got, cnt) != effPos(w, cnt) {
 				return e.viol("wrong-result", "C10-simd-insertpos16", step, "16-slot insert position (direct): keys=%x occupied=%d byte=%#02x returns %d, scalar scan gives %d", k16, cnt, b, got, w)
 			}
 		}
@@ -224,7 +227,7 @@ func (e *Exec) sweepPrimitives(step int, seed uint64, rounds int) *Violation {
 				k4 |= uint32(v) << (8 * uint(i))
 			}
 			for _, b := range probes {
-				got := art.VerifSearchNode4(k4, b)
+				got := rawSearch4(k4, b)
 				if got >= cnt {
 					got = -1
 				}
@@ -241,7 +244,7 @@ func (e *Exec) sweepPrimitives(step int, seed uint64, rounds int) *Violation {
 					if scalarSearch(occ, cnt, b) != -1 {
 						continue
 					}
-					if got, w := art.VerifInsertPosNode4(z, b), scalarInsertPos(occ, cnt, b); effPos(got, cnt) != effPos(w, cnt) {
+					if got, w := rawInsertPos4(z, b), scalarInsertPos(occ, cnt, b); effPos(got, cnt) != effPos(w, cnt) {
 						return e.viol("wrong-result", "C10-swar-insertpos4", step, "4-slot insert position (direct, cleared lanes): keys=%08x occupied=%d byte=%#02x returns %d, scalar scan gives %d", z, cnt, b, got, w)
 					}
 				}
